@@ -11,7 +11,7 @@ import (
 
 func TestInsertAccepted(t *testing.T) {
 	rapid.Check(t, func(t *rapid.T) {
-		z := GenZ(t, 2)
+		z := GenZ(&Rapid{T: t}, 2)
 		_, seg, _ := capnp.NewMessage(capnp.SingleSegment(nil))
 		root, err := air.NewRootZ(seg)
 		if err != nil {
